@@ -251,9 +251,11 @@ func (d *DiskSeam) After(c *simos.Call, err error) {
 	}
 	// Modification times come from the fake clock, so entity tags and
 	// Last-Modified are a function of the seed, not of the host's clock.
+	// (bytes written through a handle are stamped by the shim itself, through
+	// the descriptor: StampTime below)
 	switch c.Op {
-	case "open", "write", "close", "truncate", "mkdir":
-		if err == nil || c.Op == "write" {
+	case "open", "truncate", "mkdir":
+		if err == nil {
 			now := time.Now()
 			p := c.Path
 			if !realfp.IsAbs(p) {
@@ -267,6 +269,9 @@ func (d *DiskSeam) After(c *simos.Call, err error) {
 		}
 	}
 }
+
+// StampTime implements simos.Stamper.
+func (d *DiskSeam) StampTime() (time.Time, bool) { return time.Now(), d.Stamp }
 
 // Snapshot reads the stored tree below root with the real os package.
 func Snapshot(root string) map[string]model.Entry {
